@@ -515,30 +515,41 @@ fn c15_path_trace_store_and_loop_discard() { path_trace_case(1, 2) }
 fn c15_path_trace_one_entry() { path_trace_case(1, 1) }
 
 
+static mut LP_REGISTER_CALLS: u32 = 0;
+impl<A: AcceptableMasterList> Bmca<A> {
+    /// recording stand-in for Bmca::register_announce_message (contract: c06_reregister_hands_age_to_list):
+    /// here only "was the Announce handed on at all" matters
+    pub(crate) fn verif_lp_register(&mut self, _header: &Header, _announce_message: &AnnounceMessage) -> bool {
+        unsafe { LP_REGISTER_CALLS += 1; }
+        false
+    }
+}
+
 /// CONCRETE-SHAPE INSTANCE beyond the path-trace list capacity: a PATH_TRACE TLV with 129 identities (1032 octets;
-/// the 1100-octet Announce fits the daemon's 2048-octet buffer), 128 fixed filler identities followed by one that
+/// the 1100-octet Announce fits the daemon's 2048-octet buffer): 128 fixed filler identities followed by one that
 /// is the instance's own identity or not. The loop check must look at EVERY identity of the TLV, not only at the
-/// 128 that fit the stored list: own identity at index 128 => discarded without effect; otherwise the first 128
-/// are stored.
-/// NOT DISCHARGED: with unwind 140 (129 chunk comparisons) CBMC gave up after 40 min; the harness is kept
-/// un-registered. Consequence (stated in DESIGN section 5, C15 and section 8, seed C15-3): the loop check is
-/// proved for PATH_TRACE TLVs of <= 2 identities only.
+/// 128 that fit the stored list: own identity at index 128 => discarded (data sets untouched, not handed to the
+/// BMCA); otherwise the first 128 are stored. The own clock identity is fixed (AB..AB); Bmca registration is
+/// replaced by a recording stub.
+/// NOT DISCHARGED: CBMC does not finish within 30 min (unwinding 132 for the 129 chunk comparisons applies to
+/// every loop of the harness); kept un-registered for a bigger machine. Consequence, stated in DESIGN (section 5
+/// C15, section 8 seed C15-3): the loop check is proved for PATH_TRACE TLVs of <= 2 identities only.
+// #[kani::proof] #[kani::unwind(132)]
+// #[kani::stub(PortActionIterator::from, PortActionIterator::verif_recording_from)]
+// #[kani::stub(Bmca::register_announce_message, Bmca::verif_lp_register)]
 #[allow(dead_code)]
 fn c15_path_trace_loop_beyond_list_capacity() {
     const N: usize = 129;
     let mut inst0 = any_instance_state(0);
     inst0.path_trace_ds.enable = true;
+    inst0.default_ds.clock_identity = ClockIdentity([0xAB; 8]);
     let own_clock = inst0.default_ds.clock_identity;
-    // fillers start with octet 0xF0: keep the own identity distinguishable from them
-    kani::assume(own_clock.0[0] != 0xF0);
     let lock = ChkLock::new(inst0);
     mk_port!(port, &lock, PortState::Slave(any_slave_state()), Running);
-    port.bmca = Bmca::new(AnyAccept { mode: 0, only: any_clock_identity() }, any_time_interval(), port.port_identity);
     let a = verif_fm::any_announce();
     kani::assume(steps_in_range(&a));
     let src = a.header.source_port_identity;
     kani::assume(src == lock.peek().parent_ds.parent_port_identity);
-    kani::assume(src.clock_identity != port.port_identity.clock_identity);
     let mut tlv = [0u8; 4 + 8 * N];
     tlv[0] = 0x00; tlv[1] = 0x08; tlv[2] = ((8 * N) >> 8) as u8; tlv[3] = ((8 * N) & 0xff) as u8;
     let mut k = 0;
@@ -556,20 +567,20 @@ fn c15_path_trace_loop_beyond_list_capacity() {
     let suffix = TlvSet::deserialize(&tlv[..]);
     kani::assume(suffix.is_ok());
     let m = announce_msg(a, suffix.unwrap());
-    let pre = port_view(&port);
     let inst = instance_view(lock.peek());
+    unsafe { LP_REGISTER_CALLS = 0; }
 
     let actions = run_actions!(port.handle_announce(&m, a));
     let now = instance_view(lock.peek());
     if last_is_own {
         assert!(actions.n == 0);
-        assert!(port_view(&port) == pre);
         assert!(now == inst);
+        assert!(unsafe { LP_REGISTER_CALLS } == 0);
     } else {
         assert!(now.path_len == 128);
         assert!(now.path0 == Some(ClockIdentity([0xF0, 0, 0, 0, 0, 0, 0, 0])));
         assert!(now.path1 == Some(ClockIdentity([0xF0, 0, 0, 0, 0, 0, 0, 1])));
-        assert!(actions.n_reset_announce_receipt == 1);
+        assert!(unsafe { LP_REGISTER_CALLS } == 1);
     }
     kani::cover!(last_is_own);
     kani::cover!(!last_is_own);
